@@ -106,6 +106,7 @@ type Result struct {
 	Threads   int
 	Unfinished []string
 	Forced    int      // scheduling points without a decision (not recorded in Points)
+	Accesses  int      // field / map accesses seen by the race detector
 	Races     []string // unsynchronised conflicting accesses found by the happens-before detector
 }
 
@@ -176,6 +177,9 @@ func Run(chooser Chooser, maxSteps int, envs []*EnvEvent, main func()) *Result {
 	}
 	rs.mu.Lock()
 	rs.active = false
+	if rs.race != nil {
+		res.Accesses = rs.race.accesses
+	}
 	res.Threads = len(rs.threads)
 	for _, th := range rs.threads {
 		if !th.done {
